@@ -376,8 +376,9 @@ example : ((runFrom { cmp := .gt }
 /-! ## the transit relay (`absR`)
 
 `ReachP absR` = every state reachable by any interleaving of the `absK` events (at most 2 links at a time) in
-a network where ONE side was given `transit_relay_location` and direct dialling works in one direction or in
-NONE.  The configured side's Connector publishes the relay hint in EVERY generation (`Connector.start`) and
+a network where ONE side was given `transit_relay_location` and direct dialling works in NO direction or only
+for the other side; a connection attempt to the relay may stay in flight for any time (`dial`, then `connect`)
+and is aborted by `stop_pending_connectors` when its generation ends.  The configured side's Connector publishes the relay hint in EVERY generation (`Connector.start`) and
 dials the relay itself; the peer dials it when its Manager hands that hint to its current Connector; the
 relay joins the two connections that wait there (both ends are then outbound: each side's
 `stop_pending_connections` closes its own).  The proviso (`killOK`) counts the relay path as a candidate only
@@ -419,5 +420,13 @@ example : afterLossRelayOnly.a.mgr = .CONNECTING ∧ afterLossRelayOnly.b.mgr = 
     afterLossRelayOnly.links = [] := by decide +kernel
 example : CanConvergeP absR afterLossRelayOnly :=
   reconverge_via_relay _ (reach_run _ (ReachP.init (by decide +kernel)) _ (by decide +kernel))
+
+/-- an attempt in flight when its generation ends is aborted: after the selection turn nothing of that Connector
+    is left in flight (`stop_pending_connectors` reaches it through the chained Deferred) -/
+example : ((runFrom { cmp := .gt, relay := some .A, ra := false }
+    [.key .A, .key .B, .vers .A, .vers .B, .dilate .A, .dilate .B, .deliver .A, .deliver .B, .deliver .B, .deliver .B,
+     .dial .A, .connect .B, .hs 0, .kcmf 0]).a.fly, (runFrom { cmp := .gt, relay := some .A, ra := false }
+    [.key .A, .key .B, .vers .A, .vers .B, .dilate .A, .dilate .B, .deliver .A, .deliver .B, .deliver .B, .deliver .B,
+     .dial .A, .connect .B, .hs 0, .kcmf 0, .turn1 .A]).a.fly) = ([.relay], []) := by decide +kernel
 
 end WV.Props.C11
